@@ -205,9 +205,43 @@ def param_class(sp):
     return "-"
 
 
+def effective_nodes(case):
+    """node specs with the feedback edges added as (last) upstreams of their targets"""
+    if not case.get("fb"):
+        return case["nodes"]
+    nodes = [dict(sp) for sp in case["nodes"]]
+    for (a, b) in case["fb"]:
+        nodes[b]["ups"] = list(nodes[b].get("ups", [])) + [a]
+    return nodes
+
+
+def cycle_nodes(case):
+    """nodes that lie on a cycle (they can be re-entered while one of their own emissions is in progress)"""
+    if not case.get("fb"):
+        return set()
+    nodes = effective_nodes(case)
+    N = len(nodes)
+    succ = {i: set() for i in range(N)}
+    for d, sp in enumerate(nodes):
+        for u in sp.get("ups", []):
+            succ[u].add(d)
+
+    def reach(a):
+        seen, todo = set(), [a]
+        while todo:
+            x = todo.pop()
+            for y in succ[x]:
+                if y not in seen:
+                    seen.add(y)
+                    todo.append(y)
+        return seen
+    return {i for i in range(N) if i in reach(i)}
+
+
 def check_case(case, obs, diag, want=("C01", "C10", "C05")):
     """Returns list of (prop, signature, message). Only meaningful for fault-free cases."""
-    nodes = case["nodes"]
+    nodes = effective_nodes(case)
+    cyc = cycle_nodes(case)
     N = len(nodes)
     findings = []
     downs = {i: [] for i in range(N)}
@@ -257,23 +291,54 @@ def check_case(case, obs, diag, want=("C01", "C10", "C05")):
             if src not in nodes[dst].get("ups", []):
                 findings.append(("C01", "C01/delivery-off-edge", "node %d delivered to %d which is not its downstream" % (src, dst)))
         if True:
-            for src, lst in per_src.items():
-                i = 0
-                while i < len(lst):
-                    att_now = [d for d in downs[src] if d not in detached]
-                    rnd = lst[i:i + len(att_now)]
-                    if not att_now or [d for _, d in rnd] != att_now or len({p for p, _ in rnd}) > 1:
-                        if "C01" in want:
-                          findings.append(("C01", "C01/sibling-order/%s" % nodes[src]["k"],
-                                         "event %d: node %d (%s) called downstreams %s, attachment order of the attached ones is %s"
-                                         % (ei, src, nodes[src]["k"], [d for _, d in lst], att_now)))
-                        break
-                    for _, d in rnd:
-                        if nodes[d]["k"] == "slice" and nodes[d]["end"] is not None:
-                            slice_count[d] = slice_count.get(d, 0) + 1
-                            if slice_count[d] >= nodes[d]["end"]:
-                                detached.add(d)
-                    i += len(att_now)
+            for src, lst0 in per_src.items():
+              # one round per call of src's update; with a feedback edge rounds of nested calls interleave, so group
+              # the deliveries by the call they belong to
+              groups = {}
+              for (par, d) in lst0:
+                  groups.setdefault(par, []).append((par, d))
+              for lst in groups.values():
+                  i = 0
+                  while i < len(lst):
+                      att_now = [d for d in downs[src] if d not in detached]
+                      if src in cyc:
+                          # an emission serves the downstreams attached when it STARTED; a slice that finished during a
+                          # nested emission is still called (and ignores the element): a round is a maximal run in
+                          # attachment order that contains every downstream still attached
+                          j = i + 1
+                          pos = lambda d: downs[src].index(d) if d in downs[src] else -1
+                          while j < len(lst) and pos(lst[j][1]) > pos(lst[j - 1][1]):
+                              j += 1
+                          rnd_c = [d for _, d in lst[i:j]]
+                          # (groups of nested calls are not visited in time order: finite slices, which come and go, are
+                          #  not required)
+                          need = {d for d in att_now if not (nodes[d]["k"] == "slice" and nodes[d]["end"] is not None)}
+                          if not need <= set(rnd_c) or any(pos(d) < 0 for d in rnd_c):
+                              if "C01" in want:
+                                  findings.append(("C01", "C01/sibling-order/%s" % nodes[src]["k"],
+                                                   "event %d: node %d (%s, on a feedback cycle) called downstreams %s, attached ones in attachment order are %s"
+                                                   % (ei, src, nodes[src]["k"], rnd_c, att_now)))
+                              break
+                          for d in rnd_c:
+                              if nodes[d]["k"] == "slice" and nodes[d]["end"] is not None:
+                                  slice_count[d] = slice_count.get(d, 0) + 1
+                                  if slice_count[d] >= nodes[d]["end"]:
+                                      detached.add(d)
+                          i = j
+                          continue
+                      rnd = lst[i:i + len(att_now)]
+                      if not att_now or [d for _, d in rnd] != att_now or len({p for p, _ in rnd}) > 1:
+                          if "C01" in want:
+                            findings.append(("C01", "C01/sibling-order/%s" % nodes[src]["k"],
+                                           "event %d: node %d (%s) called downstreams %s, attachment order of the attached ones is %s"
+                                           % (ei, src, nodes[src]["k"], [d for _, d in lst], att_now)))
+                          break
+                      for _, d in rnd:
+                          if nodes[d]["k"] == "slice" and nodes[d]["end"] is not None:
+                              slice_count[d] = slice_count.get(d, 0) + 1
+                              if slice_count[d] >= nodes[d]["end"]:
+                                  detached.add(d)
+                      i += len(att_now)
         # --- per node: emitted == reference(arrivals)
         held_total = Counter()
         for u, sp in enumerate(nodes):
@@ -295,9 +360,32 @@ def check_case(case, obs, diag, want=("C01", "C10", "C05")):
                 dsp = nodes[d]
                 if dsp["k"] == "slice" and dsp["end"] is not None:
                     # the slice stopped listening after `end` arrivals
-                    exp = exp_out[:len(got)] if len(got) >= dsp["end"] else exp_out
+                    tot = sum(len(edges.get((uu, d), [])) for uu in dsp.get("ups", []))
+                    exp = exp_out[:len(got)] if tot >= dsp["end"] else exp_out
                     if dsp["end"] == 0:
                         exp = []
+                multi_out = sp["k"] in ("flatten", "zip_latest")
+                if u in cyc and sp["k"] == "zip_latest":
+                    # a zip_latest that is re-entered in the middle of draining its backlog pairs the remaining backlog
+                    # with slots the nested arrival has already replaced: no list-level meaning is documented for that
+                    continue
+                if u in cyc and downs[u] and (d != downs[u][0] or multi_out):
+                    # a node on a cycle can be re-entered while it is still serving its downstreams: later siblings see
+                    # the nested emission first (and a one-to-many node emits the nested element's pieces before the
+                    # remaining pieces of the outer one); same (value, metadata) pairs, as multisets
+                    ks = lambda l: sorted(repr(x) for x in l)
+                    if "C10" in want and ks([(g[0], tuple(g[1])) for g in got]) != ks([(e[0], tuple(e[1])) for e in exp]) \
+                            and ks([g[0] for g in got]) == ks([e[0] for e in exp]):
+                        findings.append(("C10", "C10/md-exact/%s" % sp["k"],
+                                         "after event %d: node %d (%s, on a feedback cycle) sent %r to node %d, contributors give %r (as multisets)"
+                                         % (ei, u, sp["k"], got[:8], d, exp[:8])))
+                        break
+                    if "C01" in want and ks([g[0] for g in got]) != ks([e[0] for e in exp]):
+                        findings.append(("C01", "C01/node-sem/%s/%s" % (sp["k"], param_class(sp)),
+                                         "after event %d: node %d (%s, on a feedback cycle) sent %r to node %d, list-level meaning of its arrivals is %r (as multisets)"
+                                         % (ei, u, sp["k"], [g[0] for g in got][:12], d, [e[0] for e in exp][:12])))
+                        break
+                    continue
                 if "C01" in want and [g[0] for g in got] != [e[0] for e in exp]:
                     findings.append(("C01", "C01/node-sem/%s/%s" % (sp["k"], param_class(sp)),
                                      "after event %d: node %d (%s %s) sent %r to node %d, list-level meaning of its arrivals is %r"
